@@ -22,8 +22,8 @@ Your job: make ONE change to the library source (under {wt}/src, a few lines, re
 
 Then write a demonstration: a small standalone Rust integration test file at {wt}/tests/seed_demo.rs (uses only the public API of the `vrl` crate, e.g. vrl::compiler::compile / compile_with_external, vrl::compiler::runtime::Runtime, vrl::compiler::TargetValue, vrl::value::Value, vrl::stdlib::all(); look at existing files in {wt}/tests/ or benches for usage) that FAILS with your change and PASSES without it. Verify both directions yourself:
         cd {wt} && cargo test --offline --test seed_demo 2>&1 | tail -15          # must fail with the change
-        git stash -- src && cargo test --offline --test seed_demo ; git stash pop   # must pass without it
-(adapt as needed; make sure the source change is re-applied at the end).
+        git diff -- src > /tmp/seed-{pid}/patch.diff && git apply -R /tmp/seed-{pid}/patch.diff && cargo test --offline --test seed_demo ; git apply /tmp/seed-{pid}/patch.diff   # must pass without it
+(NEVER use `git stash`: the stash is shared between all worktrees of the repository and other people are working in sibling worktrees. Make sure the source change is re-applied at the end.)
 
 Deliverables, in /tmp/seed-{pid}/:
   - patch.diff : output of `git -C {wt} diff -- src` (ONLY the library source change, not the demo test)
